@@ -10,7 +10,7 @@
 //   R        read one response (HTTP: per its framing; SCGI: to EOF; FastCGI: to END_REQUEST)
 //   E        read until EOF           H   shutdown(SHUT_WR)          K   abortive close (SO_LINGER 0)
 //   N        open a new connection (closing the current one)         W<ms> sleep
-//   P        run the configured probe request of this protocol on a separate connection now
+//   P        run the configured probe request of this protocol on a separate connection now (token p=<proto>:<hex>)
 //   P:<proto> same, for another protocol
 // result line: r=<hex>[!T] per R/E step, p=<hex>[!T] per P step, then
 //   closed=<1 if the server closed every accepted socket of the case> calls=<sync>,<async>,<up_setup>,<up_main>,<on_error>,<on_end>,<chunk_bytes>
@@ -382,8 +382,8 @@ int main(int argc, char **argv)
 					if (c.fd < 0) out << "r=- ";
 					else out << "r=" << read_step(c, proto, s == "E", leftover) << " ";
 				}
-				else if (s == "P") out << "p=" << run_probe(proto) << " ";
-				else if (s.size() > 2 && s[0] == 'P' && s[1] == ':') out << "p=" << run_probe(s.substr(2)) << " ";
+				else if (s == "P") out << "p=" << proto << ":" << run_probe(proto) << " ";
+				else if (s.size() > 2 && s[0] == 'P' && s[1] == ':') out << "p=" << s.substr(2) << ":" << run_probe(s.substr(2)) << " ";
 				else if (s.size() > 1 && s[0] == 'W') { usleep(1000 * atoi(s.c_str() + 1)); }
 				else if (s.size() > 1 && s[0] == 'X' && s[1] == ':') { /* annotation for the oracle */ }
 				else out << "BAD-STEP ";
@@ -391,6 +391,13 @@ int main(int argc, char **argv)
 			c.closefd();
 			bool closed = c.wait_server_closed(3000);
 			for (size_t i = 0; i < done.size(); i++) closed = done[i].wait_server_closed(3000) && closed;
+			{
+				// the handler that closed the socket may still be running (on_error is called after do_eof): let the
+				// event loop finish it - a posted marker runs after the current handler returned
+				std::atomic<int> *flag = new std::atomic<int>(0);
+				srv.post([flag]() { *flag = 1; });
+				for (int i = 0; i < 40000 && !*flag; i++) usleep(50);
+			}
 			out << "closed=" << (closed ? 1 : 0) << " ";
 			out << "calls=" << (g_sync_calls - c0) << "," << (g_async_calls - c1) << "," << (g_up_setup - c2) << "," << (g_up_main - c3)
 			    << "," << (g_on_error - c4) << "," << (g_on_end - c5) << "," << (g_chunk_bytes - c6);
